@@ -11,7 +11,7 @@
 From Coq Require Import List ZArith Bool Arith Lia.
 Import ListNotations.
 Require Import DH.C16_Stoppers.Model DH.C16_Stoppers.Lemmas DH.C16_Stoppers.LemmasInv DH.C16_Stoppers.LemmasMain
-  DH.C16_Stoppers.Check DH.C16_Stoppers.LemmasRefuted.
+  DH.C16_Stoppers.Check DH.C16_Stoppers.LemmasRefuted DH.C16_Stoppers.LemmasDefaults.
 Open Scope Z_scope.
 
 (* reach = states of protocol runs from n fresh evaluations *)
@@ -52,15 +52,36 @@ Theorem C16_same_budget_exact : forall p s r, wf p -> scheduled p -> reach p s -
 Proof. exact competitors_exact. Qed.
 Print Assumptions C16_same_budget_exact.
 
-(* an evaluation at least as good as every number recorded at its budget (by anybody, so far) is not stopped
-   before max_steps; for halving provided min_competing <= number of competitors (always true for the default 0) *)
+(* an evaluation at least as good as every competitor recorded at its budget so far ([hist_comp]: the numbers recorded
+   at budget b by any evaluation - for halving, by those that have not failed since) is not stopped before max_steps;
+   for halving provided min_competing <= number of competitors (always true for the default 0) *)
 Theorem C16_best_never_stopped : forall p s j jb b z t, wf p -> scheduled p -> reach p s -> nth_error s j = Some jb ->
   ok_op s (Stp j) = true -> obs jb = (b, Num z) :: t -> b < max_steps p ->
-  (forall ob z', In ob (map obs s) -> In (b, Num z') ob -> z' <= z) ->
+  (forall c, In c (hist_comp p (map obs s) b) -> c <= z) ->
   (kind p = KAsha -> min_comp p <= Z.of_nat (length (hist_comp p (map obs s) b))) ->
   snd (step p s (Stp j)) = Some false.
 Proof. exact best_never_stopped. Qed.
 Print Assumptions C16_best_never_stopped.
+
+(* the same with the plainer (stronger) hypothesis: at least as good as every number anybody recorded at that budget *)
+Theorem C16_best_never_stopped_all : forall p s j jb b z t, wf p -> scheduled p -> reach p s -> nth_error s j = Some jb ->
+  ok_op s (Stp j) = true -> obs jb = (b, Num z) :: t -> b < max_steps p ->
+  (forall ob z', In ob (map obs s) -> In (b, Num z') ob -> z' <= z) ->
+  (kind p = KAsha -> min_comp p <= Z.of_nat (length (hist_comp p (map obs s) b))) ->
+  snd (step p s (Stp j)) = Some false.
+Proof. exact best_never_stopped_all. Qed.
+Print Assumptions C16_best_never_stopped_all.
+
+(* with the DEFAULT constructor arguments of the current source tree (Generated/Facts_C16.v; min_competing = 0 for
+   halving, 10 for the median rule) the stoppers are well-formed and no side condition is needed *)
+Theorem C16_default_best_never_stopped : forall ms e s j jb b z t,
+  1 <= ms -> 0 <= e ->
+  forall p, p = asha_default ms e \/ p = median_default ms e ->
+  reach p s -> nth_error s j = Some jb -> ok_op s (Stp j) = true -> obs jb = (b, Num z) :: t -> b < max_steps p ->
+  (forall c, In c (hist_comp p (map obs s) b) -> c <= z) ->
+  snd (step p s (Stp j)) = Some false.
+Proof. exact default_best_never_stopped. Qed.
+Print Assumptions C16_default_best_never_stopped.
 
 (* halving stops an evaluation before max_steps only at a decision point, and only if at least
    k = max 1 (n div rf) of the n competitors recorded there exceed its objective + epsilon (outside the top 1/rf),
